@@ -901,12 +901,18 @@ def li_ctors(src):
         k, depth = j, 0
         while k < len(src):
             c = src[k]
-            if c == "(":
+            if c in "(":
                 depth += 1
             elif c == ")":
                 depth -= 1
             elif c == "{" and depth == 0:
-                break
+                # `member_{expr}` is a brace initialiser, the body's brace follows `)`, `}` or the parameter list
+                if re.search(r"\w\s*$", src[j:k]) and src[j:k].strip():
+                    depth += 1
+                else:
+                    break
+            elif c == "}" and depth > 0 and src[j:k].count("{") > src[j:k].count("}"):
+                depth -= 1
             elif c == ";" and depth == 0:
                 k = None
                 break
@@ -916,7 +922,7 @@ def li_ctors(src):
         init = src[j:k].strip()
         items = []
         if init.startswith(":"):
-            for it in split_args(init[1:]):
+            for it in split_args(init[1:].replace("{", "(").replace("}", ")")):
                 it = it.strip()
                 mm = re.match(r"([\w:<>]+?)\s*[({]", it)
                 if not mm:
@@ -1053,8 +1059,11 @@ def translate_localindex(repo):
         out.append("/-- %s  [%s] -/" % (docs[name], status if f is not None else "not read: canonical"))
         out.append("def %s %s : LI := %s" % (name, params, li_record(f or cf)))
     out.append("/-- default argument `isPublic=true` of the three-argument constructor (`none`: no default / not read) -/")
-    out.append("def ctorLAPDefaultIsPublic : Option Bool := %s" %
-               ("none" if dflt_public in (None, "none") else "some " + dflt_public))
+    if dflt_public is None:     # declaration / constructor not read: canonical
+        dflt_public = "true"
+        if not any(u.startswith(("ctorLAP", "constructors")) for u in unparsed):
+            unparsed.append("ctorLAPDefaultIsPublic: not read")
+    out.append("def ctorLAPDefaultIsPublic : Option Bool := %s" % ("none" if dflt_public == "none" else "some " + dflt_public))
 
     # mutators / getters: straight-line bodies
     def mutator(name, rx, param_sort, canon_field):
